@@ -944,6 +944,70 @@ def d7_descent_kinds(chk: Check) -> None:
         raise AnalysisError("descent tests of search_for_paths not found")
 
 
+def d7b_expansion_kinds(chk: Check) -> None:
+    """With expansion on, a matched parent is replaced by exactly its leaf
+    descendants.  The expansion helper must therefore know every container
+    kind the search itself knows: a kind it has no branch for is yielded as
+    if it were a leaf (the parent's own path instead of its members), and a
+    descent test that omits a kind stops the expansion one level early."""
+    prog = chk.prog
+    chk.rule("C07-D7b", "yield_children has a branch, and each of its "
+             "descent tests accepts, every container kind search_for_paths "
+             "has a branch for", floor=3)
+    sf = fn(prog, "search_for_paths")
+    yc = fn(prog, "yield_children")
+
+    def branch_kinds(fi: FuncInfo, data: str) -> Set[str]:
+        kinds: Set[str] = set()
+        for n in fi.node.body:
+            cur = n
+            while isinstance(cur, ast.If):
+                t = cur.test
+                if isinstance(t, ast.Call) and src(t.func) == "isinstance" \
+                        and src(t.args[0]) == data:
+                    elts = t.args[1].elts \
+                        if isinstance(t.args[1], ast.Tuple) else [t.args[1]]
+                    kinds |= {src(e) for e in elts}
+                cur = cur.orelse[0] if len(cur.orelse) == 1 and \
+                    isinstance(cur.orelse[0], ast.If) else None
+        return kinds
+    want = branch_kinds(sf, sf.params()[2])
+    have = branch_kinds(yc, yc.params()[1])
+    if len(want) < 3:
+        raise AnalysisError("container branches of search_for_paths: {}"
+                            .format(sorted(want)))
+    for k in sorted(want):
+        text = "yield_children: branch for {}".format(k)
+        if k in have:
+            chk.ok("C07-D7b", yc, yc.node, text, "present")
+        else:
+            chk.fail("C07-D7b", yc, yc.node, text,
+                     "the expansion helper has no branch for {}: a matched "
+                     "parent of that kind is reported as its own path "
+                     "instead of being replaced by its members".format(k))
+    data = yc.params()[1]
+    for t in walk_local(yc.node):
+        if not (isinstance(t, ast.If) and isinstance(t.test, ast.Call) and
+                src(t.test.func) == "isinstance" and
+                src(t.test.args[0]) != data):
+            continue
+        if not any(isinstance(c, ast.Call) and src(c.func) == "yield_children"
+                   for st in t.body for c in ast.walk(st)):
+            continue
+        spec = t.test.args[1]
+        elts = spec.elts if isinstance(spec, ast.Tuple) else [spec]
+        got = {src(e) for e in elts}
+        missing = sorted(want - got)
+        text = "yield_children: descent test on `{}`".format(
+            src(t.test.args[0]))
+        if missing:
+            chk.fail("C07-D7b", yc, t, text,
+                     "children of kind {} are not expanded: the member is "
+                     "reported as a leaf".format("/".join(missing)))
+        else:
+            chk.ok("C07-D7b", yc, t, text, "accepts every kind")
+
+
 # ---------------------------------------------------------------- D4 ------
 def d4_once(chk: Check) -> None:
     prog = chk.prog
@@ -1030,4 +1094,5 @@ def run(chk: Check) -> None:
     d3e_shared_record(chk)
     d5_options(chk)
     d7_descent_kinds(chk)
+    d7b_expansion_kinds(chk)
     d4_once(chk)
